@@ -154,7 +154,7 @@ LtvOnReleaseMismatched(cfg, s, s2) == \A i \in Released(s, s2) :
 (* C08: ... and for cross-pool (bridged) positions with the product of the two ratios: when the position is opened ... *)
 LtvOnOpenBridged(cfg, s, s2) == \A i \in Released(s, s2) :
       LET b == s2.borrows[i] IN b.bram > 0 /\ ~HasId(s.borrows, b.id) /\ WellFormed(s2, b) => LtvHolds(cfg, s2, b, PairLtv(cfg, PairC(cfg, b.pair)), BridgeLtv(cfg, b))
-(*      ... and when more is drawn on it. NAMED DEVIATION: DrawAsset (keeper.go:1252) applies the collateral asset's ratio alone. *)
+(*      ... and when more is drawn on it (DrawAsset applied the collateral asset's ratio alone until the repair of C08-draw-bridged-ltv). *)
 LtvOnDrawBridged(cfg, s, s2) == \A i \in Released(s, s2) :
       LET b == s2.borrows[i] IN b.bram > 0 /\ HasId(s.borrows, b.id) /\ WellFormed(s2, b) => LtvHolds(cfg, s2, b, PairLtv(cfg, PairC(cfg, b.pair)), BridgeLtv(cfg, b))
 (* C08: the out pool actually held the lent-out coins before the step *)
@@ -179,6 +179,7 @@ NoRelease(s, s2, lid, u, a, extra, closedB) ==
 P(cfg, s, a) == PriceRec(s, a).p \div cfg.pu
 Dec(cfg, a) == AssetC(cfg, a).dec
 MulFrac(x, r) == (x * r[1]) \div r[2]                       \* Dec multiply + TruncateInt
+FracMul(r1, r2) == <<r1[1] * r2[1], r1[2] * r2[2]>>           \* product of two ratios (the code's Dec.Mul; exact for the ratios of the bounded domain)
 (* VerifyCollateralizationRatio: reject iff out-value / in-value > ltv (exact for the bounded domain) *)
 RatioOk(cfg, s, cin, ca, debt, oa, r) == cin * P(cfg, s, ca) > 0 /\ debt * P(cfg, s, oa) * Dec(cfg, ca) * r[2] <= cin * P(cfg, s, ca) * Dec(cfg, oa) * r[1]
 MinLoanOk(cfg, s, oa, loan) == loan * P(cfg, s, oa) >= Dec(cfg, oa)      \* loan value >= 1$
@@ -265,7 +266,7 @@ Draw(cfg, s, u, bid, da, amt, env) ==
   IF l.o # u THEN Fail(s) ELSE
   LET s1 == Accrue(s, bid, env)  b == GetId(s1.borrows, bid) IN
   IF da # b.oa \/ amt > PB(s1, pr.opool, pr.aout).amt \/ ~PriceOk(s, l.asset) \/ ~PriceOk(s, pr.aout) THEN Fail(s)
-  ELSE IF ~RatioOk(cfg, s1, b.cin, l.asset, b.out + b.iT + amt, pr.aout, PairLtv(cfg, pr)) THEN Fail(s)
+  ELSE IF ~RatioOk(cfg, s1, b.cin, l.asset, b.out + b.iT + amt, pr.aout, FracMul(PairLtv(cfg, pr), IF pr.inter THEN BridgeLtv(cfg, b) ELSE One)) THEN Fail(s)
   ELSE Done(AddTB(PutBorrow(UserAmt(PoolAmt(s1, pr.opool, pr.aout, -amt), u, pr.aout, amt), [b EXCEPT !.out = @ + amt]),
                   pr.opool, pr.aout, b.st, amt))
 
@@ -419,6 +420,8 @@ HandOver(cfg, s, bid, iT) ==
       s1 == PutBorrow(s, [b EXCEPT !.liq = TRUE, !.ho = TRUE, !.iT = iT])
       s2 == PoolCt(PoolAmt(s1, l.pool, pr.ain, -b.cin), l.pool, pr.ain, -b.cin)
       s3 == AddTL(AddTB(s2, pr.opool, pr.aout, b.st, -b.out), l.pool, l.asset, -b.cin)
-      l2 == [l EXCEPT !.ain = @ - b.cin]
-  IN IF l2.ain > 0 THEN PutLend(s3, l2) ELSE [DelLid(s3, l.pool, l.asset, l.id) EXCEPT !.lends = DelId(@, l.id)]
+      l2 == [l EXCEPT !.ain = IF @ > b.cin THEN @ - b.cin ELSE 0]
+      (* the position goes only when nothing is left on it: no deposit, nothing available (credited rewards), no other live borrow pledged on it *)
+      others == \E o \in Range(s.borrows) : o.id # bid /\ o.lend = l.id /\ ~o.liq
+  IN IF l2.ain > 0 \/ l.av > 0 \/ others THEN PutLend(s3, l2) ELSE [DelLid(s3, l.pool, l.asset, l.id) EXCEPT !.lends = DelId(@, l.id)]
 =============================================================================
